@@ -484,6 +484,22 @@ def r10_6(prog, rep, RULE='R10.6'):
     rep.floor(RULE, len(stores), 1, 'stores of a terminal state in BlocksToFileReader::read')
     for k, (bb, i, v) in enumerate(stores):
         ok = any(enum_arm_target(si, 'EndOfFile') is not None and body.edge_dominates((sbb, enum_arm_target(si, 'EndOfFile')), bb) for sbb, si in blocksw)
+        if not ok and blocksw:
+            # the block is classified by a helper that returns an Option / Result (`None` for the end of the file): decided on paths -- with the
+            # EndOfFile edges cut, the store is not reachable when the variants of the values returned and matched are followed
+            cut = [(sbb, enum_arm_target(si, 'EndOfFile')) for sbb, si in blocksw if enum_arm_target(si, 'EndOfFile') is not None]
+            ok = bool(cut) and bb not in reachable_vs(body, 0, removed_edges=cut)
+            if not ok and cut:
+                # `let Some(length) = self.next_block()? else { Finish }`: the store sits on the None arm of a switch on an Option, and every `None`
+                # that value can be was built in the EndOfFile arm
+                for obb, osi in arm_of_enum_switch(prog, body, adt='std::option::Option'):
+                    nt = enum_arm_target(osi, 'None')
+                    if nt is None or nt == enum_arm_target(osi, 'Some') or not body.edge_dominates((obb, nt), bb):
+                        continue
+                    oty = body.lty(osi['place'][0])
+                    nones = [(abb, a) for (abb, _si, a) in origins(body, [osi['place'][0]]).aggs if a.j.get('variant') == 'None' and a.j.get('adt_args') == oty]
+                    if nones and all(any(body.edge_dominates(e, abb) for e in cut) for abb, _a in nones):
+                        ok = True
         rep.ob(RULE, ok, key0 + 'terminal-state#%d|only-at-end-of-file-block' % k, 'state %s is entered in the EndOfFile arm of the parsed block' % v if ok else
                'the per-file reader enters its terminal state %s outside the EndOfFile arm of a parsed block: a condition on the bytes moved by one read (0 for an empty '
                'buffer) ends the file early, and what get_file delivers depends on the buffer sizes of the caller' % v, body.loc(bb, i))
